@@ -102,6 +102,103 @@ fn sweep64_block(sw: &Sweep, bits: u32, shift: u32, base: u64) {
     });
 }
 
+/// The seven invertible stages of Thomas Wang's 64-bit mix, re-implemented here only to GENERATE inputs: a value that is
+/// structured (small, few bits, a<<s) *between two stages* corresponds to inputs and hash values that look random.  For every
+/// stage boundary i and structured value s the candidates x = (stages 1..i)^-1 (s) and y = (stages i+1..7)(s) are checked with
+/// the usual round-trip oracle on the real functions.  If the crate's hash ever stops being this composition the candidates
+/// are merely less targeted; the oracle does not depend on the re-implementation.
+fn stage_fwd(i: usize, k: u64) -> u64 {
+    match i {
+        0 => (!k).wrapping_add(k << 21),
+        1 => k ^ (k >> 24),
+        2 => k.wrapping_mul(265),
+        3 => k ^ (k >> 14),
+        4 => k.wrapping_mul(21),
+        5 => k ^ (k >> 28),
+        _ => k.wrapping_add(k << 31),
+    }
+}
+fn unxorshift(k: u64, s: u32) -> u64 {
+    let mut x = k;
+    let mut sh = s;
+    while sh < 64 {
+        x ^= x >> sh;
+        sh *= 2;
+    }
+    x
+}
+fn stage_inv(i: usize, k: u64) -> u64 {
+    match i {
+        // k = !x + (x << 21) = x * (2^21 - 1) - 1  =>  x = (k + 1) * inv(2^21 - 1)
+        0 => k.wrapping_add(1).wrapping_mul(mod_inverse((1u64 << 21) - 1)),
+        1 => unxorshift(k, 24),
+        2 => k.wrapping_mul(mod_inverse(265)),
+        3 => unxorshift(k, 14),
+        4 => k.wrapping_mul(mod_inverse(21)),
+        5 => unxorshift(k, 28),
+        _ => k.wrapping_mul(mod_inverse((1u64 << 31) + 1)),
+    }
+}
+/// inverse of an odd number modulo 2^64 (Newton iteration)
+fn mod_inverse(a: u64) -> u64 {
+    let mut x = a;
+    for _ in 0..6 {
+        x = x.wrapping_mul(2u64.wrapping_sub(a.wrapping_mul(x)));
+    }
+    x
+}
+
+fn mid_pipeline(sw: &Sweep, quick: bool) -> Value {
+    let c0 = sw.count.load(Ordering::Relaxed);
+    // self-check of the re-implementation (informational)
+    let conforms = (0u64..1000).all(|x| {
+        let v = x.wrapping_mul(0x9E3779B97F4A7C15);
+        (0..7).fold(v, |k, i| stage_fwd(i, k)) == int64_hash(v) && (0..7).all(|i| stage_inv(i, stage_fwd(i, v)) == v)
+    });
+    let small_bits = if quick { 20 } else { 24 };
+    (0usize..=7).into_par_iter().for_each(|boundary| {
+        let to_input = |s: u64| (0..boundary).rev().fold(s, |k, i| stage_inv(i, k));
+        let to_hash = |s: u64| (boundary..7).fold(s, |k, i| stage_fwd(i, k));
+        let mut n = 0u64;
+        let mut probe = |s: u64| -> bool {
+            n += 2;
+            sw.probe64(to_input(s)) | sw.probe64(to_hash(s))
+        };
+        // small values and their complements
+        for s in 0u64..(1 << small_bits) {
+            if probe(s) | probe(!s) {
+                break;
+            }
+        }
+        // a << sh, for a < 2^10, every shift; 2^k +- d
+        'o: for sh in 0..64u32 {
+            for a in 0u64..(1 << 10) {
+                if probe(a << sh) | probe(!(a << sh)) {
+                    break 'o;
+                }
+            }
+            for d in 0u64..1024 {
+                if probe((1u64 << sh).wrapping_add(d)) | probe((1u64 << sh).wrapping_sub(d)) {
+                    break 'o;
+                }
+            }
+        }
+        // at most 3 bits set / cleared
+        'p: for i in 0..64u32 {
+            for j in 0..64u32 {
+                for k in 0..64u32 {
+                    let v = (1u64 << i) | (1u64 << j) | (1u64 << k);
+                    if probe(v) | probe(!v) {
+                        break 'p;
+                    }
+                }
+            }
+        }
+        sw.count.fetch_add(n, Ordering::Relaxed);
+    });
+    json!({"part": format!("values structured at one of the 8 stage boundaries of the mix (small values < 2^{}, complements, a<<s, 2^k+-d, <=3 bits), mapped to inputs and to hash values through a re-implementation of the stages", small_bits), "count": sw.count.load(Ordering::Relaxed) - c0, "reimplementation_conforms_to_int64_hash": conforms})
+}
+
 fn structured64(sw: &Sweep, quick: bool) -> Vec<Value> {
     let mut parts = Vec::new();
     // low and high blocks
@@ -190,6 +287,7 @@ fn structured64(sw: &Sweep, quick: bool) -> Vec<Value> {
         sw.count.fetch_add(2 * steps, Ordering::Relaxed);
     });
     parts.push(json!({"part": "forward and backward orbits of 256 byte-pattern seeds", "count": sw.count.load(Ordering::Relaxed) - c0}));
+    parts.push(mid_pipeline(sw, quick));
     parts
 }
 
@@ -208,13 +306,32 @@ pub fn run(ctx: &Ctx) -> i32 {
         let w = bad64(x).unwrap_or_default();
         ctx.violation("int64", &format!("64-bit pair: {}", w), json!({"kind": "u64", "x": format!("{}", x)}));
     }
+    // with a trace-level logger installed (log macros evaluate their arguments only then)
+    {
+        let bad = crate::common::with_trace_logging(|| {
+            for x in (0u64..(1 << 16)).chain((0..64).map(|s| 1u64 << s)).chain((0..64).map(|s| !(1u64 << s))) {
+                if x <= u32::MAX as u64 {
+                    if let Some(w) = bad32(x as u32) {
+                        return Some(w);
+                    }
+                }
+                if let Some(w) = bad64(x) {
+                    return Some(w);
+                }
+            }
+            None
+        });
+        if let Some(w) = bad {
+            ctx.violation("logging", &format!("with a trace-level logger installed: {}", w), json!({"kind": "logging"}));
+        }
+    }
     ctx.sample(json!({"u32": "0x40008001", "int32_hash": format!("{:#x}", int32_hash(0x40008001)), "int32_hash_inverse_of_that": format!("{:#x}", int32_hash_inverse(int32_hash(0x40008001)))}));
     ctx.sample(json!({"u64": "0xfffffffffffffffe", "int64_hash": format!("{:#x}", int64_hash(0xfffffffffffffffe)), "int64_hash_inverse_of_that": format!("{:#x}", int64_hash_inverse(int64_hash(0xfffffffffffffffe)))}));
     println!("C19 32-bit: {} values (complete domain); 64-bit: {} structured values", n32, n64);
     let coverage = json!({
         "evaluations": n32 + n64,
         "distinct_nontrivial": n32,
-        "rule": "32-bit pair: every one of the 2^32 arguments, both compositions (exhaustive; each value is a distinct case). 64-bit pair: complete structured sub-domains (consecutive blocks, a<<s, <=4 (5) bits set/cleared, carry chains, orbits), both compositions; distinct_nontrivial counts only the 32-bit values, which are distinct by construction",
+        "rule": "32-bit pair: every one of the 2^32 arguments, both compositions (exhaustive; each value is a distinct case). 64-bit pair: complete structured sub-domains (consecutive blocks, a<<s, <=4 (5) bits set/cleared, carry chains, orbits, and values that are structured at one of the stage boundaries inside the mix), both compositions; the first 2^16 values and all one-bit / all-but-one-bit words are repeated with a trace-level logger installed; distinct_nontrivial counts only the 32-bit values, which are distinct by construction",
         "samples": [{"u32": "0x00000000"}, {"u32": "0xffffffff"}, {"u64": "0x0000000100000000"}, {"u64": "0xfffffffffffffffe"}, {"u64_pattern": "(1<<63)-(1<<21)+5"}],
         "exhaustive": true,
         "exhaustive_scope": "the 32-bit pair only; the 64-bit domain is covered on the listed sub-domains, not completely",
@@ -233,6 +350,9 @@ pub fn run(ctx: &Ctx) -> i32 {
 }
 
 pub fn replay(_ctx: &Ctx, case: &Value) -> Result<(bool, String), String> {
+    if case["kind"].as_str() == Some("logging") {
+        return Err("re-derived by running the check itself".into());
+    }
     match case["kind"].as_str() {
         Some("u32") => {
             let x = case["x"].as_u64().ok_or("x")? as u32;
